@@ -846,8 +846,10 @@ func dupInputField(r *core.RNG, st *sites, nested bool) (string, bool) {
 	return fmt.Sprintf("input field %s given twice (object nesting depth %d)", f.Name.Value, o.depth), true
 }
 
-func opDuplicateInputField(r *core.RNG, st *sites) (string, bool)       { return dupInputField(r, st, false) }
-func opDuplicateInputFieldNested(r *core.RNG, st *sites) (string, bool) { return dupInputField(r, st, true) }
+func opDuplicateInputField(r *core.RNG, st *sites) (string, bool) { return dupInputField(r, st, false) }
+func opDuplicateInputFieldNested(r *core.RNG, st *sites) (string, bool) {
+	return dupInputField(r, st, true)
+}
 
 func opDuplicateOperationName(r *core.RNG, st *sites) (string, bool) {
 	op, ok := pick(r, st.ops)
